@@ -24,7 +24,7 @@ var profC15 = &hist.Profile{
 	Name: "C15", MinOps: 12, MaxOps: 45, Topics: 3, Subs: 4,
 	W: map[string]int{
 		hist.OpPublish: 16, hist.OpPull: 18, hist.OpAck: 10, hist.OpModAck: 3, hist.OpNack: 3, hist.OpAdvance: 12,
-		hist.OpSeekTime: 2, hist.OpSnapshot: 2, hist.OpSeekSnap: 1, hist.OpSweep: 3, hist.OpJob: 16,
+		hist.OpSeekTime: 2, hist.OpSnapshot: 2, hist.OpSeekSnap: 1, hist.OpSweep: 3, hist.OpJob: 16, hist.MacroOrphanSnapshot: 2,
 		hist.OpCreateSub: 5, hist.OpDeleteSub: 3, hist.OpCreateTopic: 2, hist.OpDeleteTopic: 3, hist.OpGetSub: 2, hist.OpGetTopic: 1,
 	},
 	Ordered: 60, Keys: []string{"", "K1", "K1", "K2"}, Filters: hist.DefaultFilters,
@@ -61,7 +61,9 @@ func protectedRows(s *sut.SUT, now time.Time) (map[string]bool, error) {
 		"subscription": "SELECT id FROM subscriptions WHERE deleted_at IS NULL",
 		"delivery":     "SELECT d.id FROM deliveries d JOIN subscriptions s ON s.id = d.subscription_id WHERE s.deleted_at IS NULL AND d.completed_at IS NULL AND d.expires_at > ?",
 		"message":      "SELECT DISTINCT d.message_id FROM deliveries d JOIN subscriptions s ON s.id = d.subscription_id WHERE s.deleted_at IS NULL AND d.completed_at IS NULL AND d.expires_at > ?",
-		"snapshot":     "SELECT n.id FROM snapshots n JOIN topics t ON t.id = n.topic_id WHERE t.deleted_at IS NULL",
+		// a snapshot goes with its topic ROW: it is protected while the topic is live, and also while a
+		// deleted topic is kept because a live subscription (which can still be snapshotted and seeked) hangs on it
+		"snapshot": "SELECT n.id FROM snapshots n JOIN topics t ON t.id = n.topic_id WHERE t.deleted_at IS NULL OR EXISTS (SELECT 1 FROM subscriptions s WHERE s.topic_id = t.id AND s.deleted_at IS NULL)",
 	}
 	for kind, q := range qs {
 		var args []any
